@@ -412,7 +412,7 @@ class SymRule(FactRule):
         key = None
         if l.k == 'var' and l.decl in self.locals:
             if l.decl in self.loopvars:
-                return self.set_key(ts, ('v', l.decl), None)
+                return self.sym_assign(ctx, lhs, rhs, op, self.set_key(ts, ('v', l.decl), None))
             key = ('v', l.decl)
         elif l.k == 'mem' and l.op in self.track_fields:
             key = ('f', pstr(lhs))
@@ -461,3 +461,155 @@ class SymRule(FactRule):
 
     def sym_call(self, ctx, call, ts):
         return ts
+
+
+# --------------------------------------------------------------- guards
+
+def path_roots(p):
+    """Prefixes of an access path that, when assigned, invalidate a fact about p."""
+    out = set([p])
+    for sep in ('->', '.'):
+        parts = p.split(sep)
+    cur = ''
+    i = 0
+    import re
+    toks = re.split(r'(->|\.)', p)
+    acc = ''
+    for t in toks:
+        acc += t
+        if t not in ('->', '.'):
+            out.add(acc.lstrip('*&'))
+            out.add(acc)
+    return out
+
+
+class GuardRule(FactRule):
+    """Facts established by branch edges (patterns over normalised comparisons),
+    killed by assignments to the paths they mention; obligations at calls and at
+    assignments to named fields.
+
+    patterns: list of (name, fn(op, lp, rp, l, r, rule, ctx) -> bool) evaluated on every edge with the
+              comparison that holds on it (both operand orders are tried).
+    call_req: {callee name: [fact names]}
+    assign_req: list of (field name, value predicate(rhs, ctx) -> bool, [fact names])
+    """
+    name = 'R2.guard'
+
+    def __init__(self, prog, fn, patterns, call_req=None, assign_req=None):
+        FactRule.__init__(self, prog, fn)
+        self.patterns = patterns
+        self.call_req = call_req or {}
+        self.assign_req = assign_req or []
+        self.checked = 0
+
+    def have(self, ts):
+        return set(it[1] for it in ts if isinstance(it, tuple) and it and it[0] == 'g')
+
+    def add_fact(self, ts, name, paths):
+        return ts | frozenset([('g', name, frozenset(paths))])
+
+    def on_edge(self, ctx, node, label, refined, ts):
+        if ctx.fn is not self.fn:
+            return ts
+        op, l, r = atom_cmp(node.e, label)
+        lp, rp = self.P(l), self.P(r)
+        for name, fn in self.patterns:
+            try:
+                if fn(op, lp, rp, l, r, self, ctx):
+                    ts = self.add_fact(ts, name, (lp, rp))
+                elif fn(CMP_FLIP[op], rp, lp, r, l, self, ctx):
+                    ts = self.add_fact(ts, name, (lp, rp))
+            except (AttributeError, IndexError, TypeError):
+                pass
+        return self.guard_edge(ctx, node, label, refined, ts)
+
+    def guard_edge(self, ctx, node, label, refined, ts):
+        return ts
+
+    def kill(self, ts, path):
+        out = []
+        for it in ts:
+            if isinstance(it, tuple) and it and it[0] == 'g':
+                dead = False
+                for p in it[2]:
+                    if path in path_roots(p):
+                        dead = True
+                if dead:
+                    continue
+            out.append(it)
+        return frozenset(out)
+
+    def on_assign(self, ctx, lhs, rhs, op, value, ts):
+        if ctx.fn is not self.fn:
+            return ts
+        f = last_field(lhs)
+        for field, pred, req in self.assign_req:
+            if f == field and pred(rhs, ctx):
+                self.checked += 1
+                missing = [x for x in req if x not in self.have(ts)]
+                if missing:
+                    self.violate(ctx, 'unguarded-store', '%s %s %s without the guard(s): %s' % (
+                        self.P(lhs), op, show(rhs) if rhs is not None else '', ', '.join(missing)),
+                        inst='%s:%s' % (field, ','.join(missing)))
+        ts = self.kill(ts, self.P(lhs))
+        return self.guard_assign(ctx, lhs, rhs, op, ts)
+
+    def guard_assign(self, ctx, lhs, rhs, op, ts):
+        return ts
+
+    def on_call(self, ctx, call, ts):
+        if ctx.fn is not self.fn:
+            return ts
+        n = call_name(call)
+        if n in self.call_req:
+            self.checked += 1
+            missing = [x for x in self.call_req[n] if x not in self.have(ts)]
+            if missing:
+                self.violate(ctx, 'unguarded-call', '%s() reachable without the guard(s): %s' % (n, ', '.join(missing)),
+                             inst='%s:%s' % (n, ','.join(missing)))
+        # a local passed by address may be rewritten by the callee
+        for a in call.a[1:]:
+            sa = strip(a)
+            if sa is not None and sa.k == 'un' and sa.op == '&':
+                ts = self.kill(ts, self.P(sa.a[0]))
+        return self.guard_call(ctx, call, ts)
+
+    def guard_call(self, ctx, call, ts):
+        return ts
+
+
+def macro_invocations(path, name):
+    """(line, [argument strings]) of every invocation of macro `name` in the
+    source file: the macro call itself is not part of the AST, only its
+    expansion; arguments are split on top-level commas."""
+    try:
+        text = open(path).read()
+    except OSError:
+        return []
+    import re
+    out = []
+    for m in re.finditer(r'\b' + re.escape(name) + r'\s*\(', text):
+        i = m.end()
+        depth = 1
+        args = []
+        cur = ''
+        while i < len(text) and depth > 0:
+            ch = text[i]
+            if ch == '(':
+                depth += 1
+                cur += ch
+            elif ch == ')':
+                depth -= 1
+                if depth == 0:
+                    args.append(cur.strip())
+                else:
+                    cur += ch
+            elif ch == ',' and depth == 1:
+                args.append(cur.strip())
+                cur = ''
+            else:
+                cur += ch
+            i += 1
+        line = text.count('\n', 0, m.start()) + 1
+        out.append((line, [re.sub(r'\s+', '', a) for a in args]))
+    return out
